@@ -2,13 +2,14 @@
 # try_mutant.sh <patch.diff> <Cnn> [<Cnn> ...] : apply the patch in a private worktree of /repo
 # (VERIF_REPO), run the quick checks there, remove the worktree.  /repo itself is not touched.
 patch=$1; shift
+V=${VERIF_DIR:-/verif}
 W=/tmp/mrepo_$$
 git -C /repo worktree add --detach $W >/dev/null 2>&1 || { echo "cannot add worktree"; exit 2; }
 ( cd $W && git apply "$patch" 2>/dev/null ) || { echo "patch does not apply"; git -C /repo worktree remove --force $W; exit 2; }
 for p in "$@"; do
-  out=$(cd /verif && VERIF_REPO=$W timeout 900 bin/check $p quick 2>&1 | grep -v conda | grep -v KNOWN-FINDING | tail -2 | tr '\n' ' ')
+  out=$(cd $V && VERIF_REPO=$W timeout 900 bin/check $p quick 2>&1 | grep -v conda | grep -v KNOWN-FINDING | tail -2 | tr '\n' ' ')
   echo "  $p: $out"
 done
 git -C /repo worktree remove --force $W
-rm -rf /verif/replays
-(cd /verif && PYTHONPATH=/repo /venv/bin/python tools/translate.py /repo coq/gen >/dev/null 2>&1; for t in tools/tr_*.py; do PYTHONPATH=/repo /venv/bin/python $t /repo coq/gen >/dev/null 2>&1; done; cd coq && make -k -j16 >/dev/null 2>&1)
+rm -rf $V/replays
+(cd $V && PYTHONPATH=/repo /venv/bin/python tools/translate.py /repo coq/gen >/dev/null 2>&1; for t in tools/tr_*.py; do PYTHONPATH=/repo /venv/bin/python $t /repo coq/gen >/dev/null 2>&1; done; cd coq && make -k -j16 >/dev/null 2>&1)
